@@ -60,12 +60,13 @@ EXACT = {"normal", "lognormal", "lnnf", "normal_fmu"}
 def build(spec):
     """spec: {"dims": [ {"marginal": name} | {"template": name, "on": j} ], "slicers": [slicer spec per dim]}"""
     descs = []
+    shared = make_slicer(spec["slicers"][0]) if spec.get("shared_slicer_object") else None
     for d, sl in zip(spec["dims"], spec["slicers"]):
         if "marginal" in d:
-            descs.append({"distribution": MARGINALS[d["marginal"]](), "intervals": make_slicer(sl)})
+            descs.append({"distribution": MARGINALS[d["marginal"]](), "intervals": shared or make_slicer(sl)})
         else:
             tmpl, pars = TEMPLATES[d["template"]]
-            descs.append({"distribution": tmpl(), "conditional_on": d["on"], "intervals": make_slicer(sl),
+            descs.append({"distribution": tmpl(), "conditional_on": d["on"], "intervals": shared or make_slicer(sl),
                           "parameters": {p: DependenceFunction(lin) for p in pars}})
     return GlobalHierarchicalModel(descs)
 
@@ -258,9 +259,16 @@ def run_big(case):
     slk = [s[0] for s in spec["slicers"]]
 
     def bad(clause, detail, **extra):
+        # the slicer that matters is the one of the conditioning variable of the dimension that differs
+        kind = slk[0]
+        where = detail.get("differs_in")
+        if where is not None and "on" in spec["dims"][where[0]]:
+            kind = slk[spec["dims"][where[0]]["on"]]
+        elif detail.get("dim") is not None and "on" in spec["dims"][detail["dim"]]:
+            kind = slk[spec["dims"][detail["dim"]]["on"]]
         sig = {"check": "order_invariance" if clause.startswith("order") else "per_interval", "clause": clause,
-               "slicer": slk[0], "scope": "large"}
-        if slk[0] == "points":
+               "slicer": kind, "scope": "large"}
+        if kind == "points":
             sig["tied_values_straddle_chunk_boundary"] = ties_straddle_chunks(spec, data)
         sig.update(extra)
         if not any(v["sig"] == sig for v in viol):
@@ -281,6 +289,17 @@ def run_big(case):
     for clause, detail in check_per_interval(spec, base, data, fit_desc, 1e-9 if exact else 1e-6):
         bad(clause, detail)
     n_fit = 1
+    # the same data as list of lists and as pandas DataFrame (array-like, as in the documented workflow)
+    import pandas as pd
+    for kind, dd in (("list_of_lists", data.tolist()), ("dataframe", pd.DataFrame(data, columns=[f"v{i}" for i in range(n_dim)]))):
+        n_fit += 1
+        try:
+            mk = fit_model(spec, dd, fit_desc)
+            ok, where = snap_equal(s0, snapshot(mk), rtol)
+            if not ok:
+                bad("data_container_changes_fit", {"container": kind, "differs_in": where})
+        except Exception as e:
+            bad("fit_exception", {"type": type(e).__name__, "msg": str(e)[:160], "container": kind})
     fam = permutations_family(n)
     extra = {"asc0": np.argsort(data[:, 0], kind="stable"), "desc0": np.argsort(-data[:, 0], kind="stable"),
              "asc1": np.argsort(data[:, 1], kind="stable"), "desc1": np.argsort(-data[:, 1], kind="stable")}
@@ -417,7 +436,10 @@ def main(ctx):
             for n in ns:
                 if sl[0] == "points" and n == 300 and sl[1] > 60:
                     continue
-                sp = dict(spec, slicers=[list(sl)] * len(spec["dims"]))
+                # every dimension gets its OWN slicer setting (the one of a conditioning variable is what matters): a model that
+                # picks the slicer of the wrong dimension is then visible
+                k0 = BIG_SLICERS.index(sl)
+                sp = dict(spec, slicers=[list(BIG_SLICERS[(k0 + 2 * j) % len(BIG_SLICERS)]) if j else list(sl) for j in range(len(spec["dims"]))])
                 fvs = fit_variants(spec)
                 if q:   # quick: default, weighted least squares on every dimension that supports it (others None / mle)
                     names_ = [d.get("marginal") or d.get("template") for d in spec["dims"]]
@@ -431,6 +453,11 @@ def main(ctx):
                     cases.append(big)
                     if sl[0] == "points":   # the same without ties (continuous values): membership is then well defined
                         cases.append(dict(big, rounded=False))
+    # one and the same slicer OBJECT handed to every dimension (a user may well re-use it)
+    for spec in SPECS_3D:
+        for sl in (BIG_SLICERS[0], BIG_SLICERS[2]):
+            cases.append({"kind": "big", "spec": dict(spec, slicers=[list(sl)] * 3, shared_slicer_object=True), "n": 2000, "fit": None,
+                          "perms": ["reverse", "blocks2031"]})
     for spec, exact in ((SPECS_2D[0], True), (SPECS_2D[2], False), (SPECS_3D[0], True)):
         for sl in (BIG_SLICERS[0], BIG_SLICERS[4]):
             cases.append({"kind": "history", "spec": dict(spec, slicers=[list(sl)] * len(spec["dims"])), "fit": None,
